@@ -18,7 +18,24 @@ def make_scenarios(ctx, n):
             t0 = t1 = t2 = scen.order_trap_tree()
             prior = "one"
             o = [dict(x, meph=m) for x, m in zip(o, (3, 2, 2, 2))]
-        out.append({"id": f"K{i}", "prior": prior, "t0": t0, "t1": t1, "t2": t2, "o": o})
+        subtree = None
+        if i == 2:
+            # files deleted from a directory that the interrupted backup has already passed: a subtree listing of the
+            # interrupted version must not bring them back
+            def f(d, m):
+                return {"k": "f", "data": d.hex(), "mode": 0o644, "mtime": 10**18 + m}
+
+            def d(c):
+                return {"k": "d", "mode": 0o755, "mtime": 10**18, "c": c}
+            t0 = d({"sub": d({"a": f(b"a0", 1), "b": f(b"b0", 2), "old1": f(b"o1", 3), "old2": f(b"o2", 4)}), "tmp2": d({"x": f(b"x0", 5), "y": f(b"y0", 6)})})
+            t1 = t2 = d({"sub": d({"a": f(b"a1!", 11), "b": f(b"b0", 2)}), "tmp2": d({"x": f(b"x1!", 15), "y": f(b"y0", 6)})})
+            prior = "one"
+            o = [dict(x, meph=1) for x in o]
+            subtree = "/sub"
+        if subtree is None:
+            dirs = sorted({p for t in (t0, t2) for p, n in gen.tree_paths(t) if n["k"] == "d" and p != "/"})
+            subtree = ctx.rng.choice(dirs) if dirs else "/"
+        out.append({"id": f"K{i}", "prior": prior, "t0": t0, "t1": t1, "t2": t2, "o": o, "subtree": subtree})
     return out
 
 
@@ -49,6 +66,7 @@ def after_steps(sc, nb):
         steps.append({"op": "restore", "band": b, "dest": f"old{b}"})
     steps += [{"op": "restore", "dest": "oldlatest"},
               {"op": "list", "band": nb}, {"op": "restore", "band": nb, "dest": "partial"},
+              {"op": "list", "band": nb, "subtree": sc.get("subtree", "/")},
               {"op": "walk"}, {"op": "backup", "opts": sc["o"][3]}, {"op": "arch"},
               {"op": "restore", "band": "latest", "dest": "final"}]
     return steps
@@ -107,7 +125,7 @@ def run(ctx):
         post = r[nbase + 1:]
         arch1, versions = post[0], post[1]
         olds = post[2:2 + nb]
-        oldlatest, lst, partial, walk, bk2, arch2, final = post[2 + nb:2 + nb + 7]
+        oldlatest, lst, partial, lstsub, walk, bk2, arch2, final = post[2 + nb:2 + nb + 8]
         pan = [x.get("panic") for x in post if isinstance(x, dict) and x.get("panic")]
         if pan:
             ctx.oracle_fail("crash/panic-after", f"after {kind} at op {k} an operation crashed: {pan[0][:160]}", small)
@@ -158,6 +176,14 @@ def run(ctx):
             if got != want:
                 ctx.oracle_fail("crash/stitched-view", f"after {kind} at op {k} the interrupted version lists {[g[0] for g in got][:8]} but its own entries followed by "
                                                        f"the previous version's after the last recorded path are {[w[0] for w in want][:8]}", small)
+                continue
+            # the same through a subtree selection: exactly the selected part of that listing
+            sub = sc.get("subtree", "/")
+            wsub = [w for w in want if gen.comp_prefix(sub, w[0])]
+            gsub = [(e["apath"], e["raw"].get("addrs", [])) for e in (lstsub.get("value") or [])]
+            if lstsub.get("result") != "ok" or gsub != wsub:
+                ctx.oracle_fail("crash/stitched-view-subtree", f"after {kind} at op {k} the interrupted version, listed under {sub!r}, gives {[g[0] for g in gsub][:8]} "
+                                                               f"but the selected part of its stitched listing is {[w[0] for w in wsub][:8]}", small)
                 continue
             # restoring it: every listed file holds the bytes its entry names
             if partial.get("result") == "ok":
